@@ -140,6 +140,10 @@ def _fault_op(flavour):
                                "itype": S(topo.IF_TYPES), "id": st.one_of(st.none(), _dupid), "h": _h,
                                "props": st.one_of(st.just({}), _mixed_props())}),
         st.fixed_dictionaries({"op": st.just("peer"), "a": _k, "b": _k, "h": _h, "props": _mixed_props()}),
+        # the first step of peer() succeeds, the second is refused: a service peered with itself (the second port's
+        # name equals the first's), or with any service (node-owned ones included) under good properties
+        st.fixed_dictionaries({"op": st.just("peer"), "a": _k, "b": _k, "h": _h, "props": st.just({}),
+                               "self": st.just(True), "any": st.booleans()}),
         st.fixed_dictionaries({"op": st.just("rename"), "kind": S(["node", "component", "service", "interface", "link"]),
                                "k": _k, "name": _badname, "h": _h, "via": S(["rename", "setter"])}),
         st.builds(lambda kind, k, h: {"op": "set_prop", "kind": kind, "k": k, "pname": "no_such_property", "val": 1,
